@@ -5,6 +5,7 @@ import (
 	"fmt"
 	"github.com/IBM/TSS/threshold"
 	"os"
+	"strings"
 	"sync"
 	"testing"
 	"time"
@@ -46,7 +47,7 @@ func genC12(t *rapid.T) c12Case {
 	n := rapid.IntRange(2, 8).Draw(t, "nops")
 	for i := 0; i < n; i++ {
 		c.Ops = append(c.Ops, c12Op{
-			Kind:  rapid.SampledFrom([]int{0, 1, 2, 2, 2, 3, 3, 4, 4, 5, 6, 7, 7, 8, 9, 9, 10, 11, 11, 12, 13, 13, 14, 15, 15, 16, 16, 17}).Draw(t, "kind"),
+			Kind:  rapid.SampledFrom([]int{0, 1, 2, 2, 2, 3, 3, 4, 4, 5, 6, 7, 7, 8, 9, 9, 10, 11, 11, 12, 13, 13, 14, 15, 15, 16, 16, 17, 18, 18}).Draw(t, "kind"),
 			Topic: rapid.IntRange(0, 1).Draw(t, "topic"),
 			Who:   rapid.IntRange(0, 3).Draw(t, "who"),
 			At:    rapid.IntRange(0, 40).Draw(t, "at"),
@@ -58,14 +59,16 @@ func genC12(t *rapid.T) c12Case {
 }
 
 type c12Info struct {
-	Attempts      []string
-	Retries       int // attempts on a topic that was used by an earlier failed / cancelled attempt
-	Overlaps      int
-	LateDelivered int
-	Foreign       int
-	HeldCallbacks int
-	LiveForeign   int // copies of live session frames under a non-participant's source, delivered while the session runs
-	StartAllFirst int // silent-mode repeats where the generator switch of known finding L20 was applied
+	Attempts          []string
+	Retries           int // attempts on a topic that was used by an earlier failed / cancelled attempt
+	Overlaps          int
+	LateDelivered     int
+	Foreign           int
+	HeldCallbacks     int
+	LateDuringSession int
+	L40Between        int
+	LiveForeign       int // copies of live session frames under a non-participant's source, delivered while the session runs
+	StartAllFirst     int // silent-mode repeats where the generator switch of known finding L20 was applied
 }
 
 const c12Timeout = 10 * time.Second
@@ -73,6 +76,10 @@ const c12Timeout = 10 * time.Second
 // known finding L20: in silent mode a finished topic stays "started" in the buffer, so frames that
 // reach a node before it starts a repeated session on that topic are forwarded into the void.
 const sigL20 = "C12/silent-repeat-topic/early-frame-dropped"
+
+// known finding L40: protocol frames carry no session identifier, so frames of a finished session that arrive while the next
+// session on the same topic runs are taken for that session's.
+const sigL40 = "C12/late-frame-of-finished-session-had-effect"
 
 func runC12(c c12Case) *vh.Outcome {
 	o := &vh.Outcome{}
@@ -84,6 +91,7 @@ func runC12(c c12Case) *vh.Outcome {
 	unknown := uint16(99)
 	membership := identityMembership(n + 1)
 	tape := &backends.Tape{}
+	sessNonceOut := map[string]string{}
 	var fail *vh.Failure
 	avoidL20 := vh.KnownOpen(sigL20) && !c.NoSwitch && os.Getenv("VERIF_NO_SWITCH") == ""
 
@@ -94,12 +102,32 @@ func runC12(c c12Case) *vh.Outcome {
 		var gate chan struct{}
 		// hookNode/hookPoint/hookFire: the next protocol instance of hookNode calls hookFire when it reaches hookPoint
 		// ("factory" | "init" | "setshare" | "run") - a cancellation in the middle of the orchestrator's set-up
+		avoidL40 := vh.KnownOpen(sigL40) && !c.NoSwitch && os.Getenv("VERIF_NO_SWITCH") == ""
+		// a history with op 18: every protocol instance emits payloads of its own (a nonce), like a protocol with fresh randomness.
+		// (Under the switch of known finding L40 payloads stay the same in every session, and stale ones are then harmless.)
+		freshPayloads := false
+		for _, op := range c.Ops {
+			if op.Kind == 18 && !avoidL40 {
+				freshPayloads = true
+			}
+		}
+		payloadsSeen := map[string]int{} // topic key -> number of the first attempt on it that emitted protocol payloads
+		attemptNo := 0                   // counts runAttempt calls; the nonce of the instances created in it
+		var nonceMu sync.Mutex
+		sessNonce := sessNonceOut             // backend instance label -> its nonce
+		lastData := map[string][]*sim.Frame{} // topic key -> the protocol payload frames (0xFF...) of the last attempt on it
 		var hookNode uint16
 		var hookPoint string
 		var hookFire func()
 		mk := func(node uint16, kind string) *backends.Rec {
 			instance[node]++
 			r := &backends.Rec{Node: node, Tape: tape, Script: backends.DefaultScript(), Session: fmt.Sprintf("%s#%d@%d", kind, instance[node], node)}
+			if freshPayloads {
+				r.Nonce = fmt.Sprintf("#%d", attemptNo)
+				nonceMu.Lock()
+				sessNonce[r.Session] = r.Nonce
+				nonceMu.Unlock()
+			}
 			if hookFire != nil && node == hookNode {
 				fire := hookFire
 				point := hookPoint
@@ -160,7 +188,11 @@ func runC12(c c12Case) *vh.Outcome {
 		}
 
 		// runAttempt runs the given calls (with optional mid-run hook) to completion and drains.
+		curKey := ""      // set by ops that want the attempt's payload frames remembered
+		attemptStart := 0 // network log position at which the current attempt began
 		runAttempt := func(calls []*sim.Call, startAllFirst bool, hook func(d *sim.Driver)) bool {
+			attemptStart = len(net.LogCopy())
+			attemptNo++
 			d := &sim.Driver{Net: net, Sched: &c.Sched, Pos: pos, DrainAfterDone: false, HardStop: c12Timeout + 5*time.Second, StartAllFirst: startAllFirst, Calls: calls}
 			if hook != nil {
 				d.AfterStep = func() { hook(d) }
@@ -197,6 +229,30 @@ func runC12(c c12Case) *vh.Outcome {
 				}
 			}
 			recorded = net.LogCopy()
+			emitted := false
+			for _, f := range recorded[attemptStart:] {
+				if f.MsgType == 2 && !f.Injected && len(f.Data) > 1 && f.Data[0] == 0xFF {
+					emitted = true
+				}
+			}
+			if emitted {
+				for _, cc := range calls {
+					if i, j := strings.Index(cc.Name, "("), strings.Index(cc.Name, ")"); i >= 0 && j > i {
+						if _, ok := payloadsSeen[cc.Name[i+1:j]]; !ok {
+							payloadsSeen[cc.Name[i+1:j]] = attemptNo
+						}
+					}
+				}
+			}
+			if curKey != "" {
+				var fs []*sim.Frame
+				for _, f := range recorded[attemptStart:] {
+					if f.MsgType == 2 && !f.Injected && len(f.Data) > 1 && f.Data[0] == 0xFF && int(f.To) <= n {
+						fs = append(fs, f)
+					}
+				}
+				lastData[curKey] = fs
+			}
 			return drain()
 		}
 
@@ -232,6 +288,12 @@ func runC12(c c12Case) *vh.Outcome {
 						if c.Silent && !avoidL20 {
 							sig = sigL20
 						}
+					}
+					if first, ok := payloadsSeen[topicKey]; freshPayloads && ok && first < attemptNo {
+						// an earlier session on this topic emitted payloads that differ from this session's: whatever of them was
+						// still buffered or in flight has been taken for this session's
+						fail = vh.Failf(sigL40, "%s failed (%v) although all participants took part, nobody cancelled and every frame was delivered; an earlier session on this topic (outcome %q) had emitted protocol payloads, and frames carry no session identifier: what was still buffered or under way when this session started was taken for this session's (silent=%v; ops %+v)", cc.Name, cc.Err, usedTopics[topicKey], c.Silent, c.Ops)
+						return false
 					}
 					fail = vh.Failf(sig, "%s failed although all participants took part, nobody cancelled and every frame was delivered: %v (previous outcome on this topic: %q; silent=%v; ops %+v)", cc.Name, cc.Err, usedTopics[topicKey], c.Silent, c.Ops)
 					return false
@@ -657,6 +719,83 @@ func runC12(c c12Case) *vh.Outcome {
 				if !drain() {
 					return
 				}
+			case 18: // a key generation by all, then another one WHILE (copies of) the protocol payloads of the finished one arrive late -
+				// before the fresh ones. "Messages arriving late for the finished session have no effect."
+				key := "DKG"
+				for attempt := 0; attempt < 2; attempt++ {
+					who := append([]uint16(nil), parts...)
+					_, used := usedTopics[key]
+					saf := false
+					if c.Silent && used && avoidL20 {
+						saf = true
+						info.StartAllFirst++
+					}
+					ctxs, cns := ctxFor(who)
+					calls := mkCalls("keygen", key, who, ctxs)
+					info.Attempts = append(info.Attempts, fmt.Sprintf("keygen attempt %d of the late-payload pair", attempt+1))
+					stale := lastData[key]
+					curKey = key
+					if attempt == 1 {
+						info.Retries++
+						if avoidL40 {
+							// known finding L40: the late copies are delivered before the next session starts
+							info.L40Between++
+							k := 0
+							if !lateReplay(len(stale), func(int) *sim.Frame { k++; return stale[k-1] }) {
+								return
+							}
+							stale = nil
+						} else {
+							// on every link the late copies arrive right before the first payload of the new session
+							byLink := map[sim.Link][]*sim.Frame{}
+							for _, f := range stale {
+								l := sim.Link{From: f.From, To: f.To}
+								byLink[l] = append(byLink[l], f)
+							}
+							net.Interpose = func(f *sim.Frame) []*sim.Frame {
+								l := sim.Link{From: f.From, To: f.To}
+								if f.MsgType != 2 || len(f.Data) < 2 || f.Data[0] != 0xFF || len(byLink[l]) == 0 {
+									return []*sim.Frame{f}
+								}
+								var out []*sim.Frame
+								for _, old := range byLink[l] {
+									g := *old
+									g.Injected = true
+									out = append(out, &g)
+									info.LateDuringSession++
+								}
+								delete(byLink, l)
+								return append(out, f)
+							}
+						}
+					}
+					ok := runAttempt(calls, saf, nil)
+					curKey = ""
+					net.Interpose = nil
+					for _, cn := range cns {
+						cn()
+					}
+					if !ok {
+						return
+					}
+					if attempt == 0 {
+						if !expectAllOK("keygen", calls, key, true) {
+							return
+						}
+						usedTopics[key] = "ok"
+						continue
+					}
+					for _, cc := range calls {
+						if cc.Err != nil && len(stale) > 0 {
+							fail = vh.Failf(sigL40, "%s failed (%v) although all participants took part and every frame was delivered: %d protocol payloads of the previous, finished key generation arrived late (duplicated), while this one was running, and were taken for this session's (the wire format carries no session identifier) - silent=%v", cc.Name, cc.Err, len(stale), c.Silent)
+							return
+						}
+					}
+					if !expectAllOK("keygen-after-late-payloads", calls, key, true) {
+						return
+					}
+					usedTopics[key] = "ok"
+				}
 			case 7: // replay recorded frames of earlier sessions (late / duplicated traffic)
 				if len(recorded) == 0 {
 					continue
@@ -753,7 +892,7 @@ func runC12(c c12Case) *vh.Outcome {
 		return o
 	}
 	o.Key = fmt.Sprintf("%+v", c)
-	o.NonTrivial = info.Retries > 0 || info.Overlaps > 0 || info.LateDelivered > 0 || info.Foreign > 0 || info.LiveForeign > 0
+	o.NonTrivial = info.LateDuringSession > 0 || info.Retries > 0 || info.Overlaps > 0 || info.LateDelivered > 0 || info.Foreign > 0 || info.LiveForeign > 0
 	if info.LiveForeign > 0 {
 		o.Classes = append(o.Classes, "foreign-frames-during-session")
 	}
@@ -767,8 +906,20 @@ func runC12(c c12Case) *vh.Outcome {
 	if info.LateDelivered > 0 {
 		o.Classes = append(o.Classes, "late-frames-replayed")
 	}
+	if info.LateDuringSession > 0 {
+		o.Classes = append(o.Classes, "payloads-of-failed-attempt-arrive-during-retry")
+	}
+	if os.Getenv("VERIF_DEBUG") != "" {
+		fmt.Fprintf(os.Stderr, "C12 debug: %+v\n", info)
+		for _, e := range tape.Snapshot() {
+			fmt.Fprintf(os.Stderr, "  tape %d %s node=%d sess=%s from=%d to=%d bc=%v %q\n", e.Seq, e.Kind, e.Node, e.Session, e.From, e.To, e.Bcast, e.Payload)
+		}
+	}
 	if info.Foreign > 0 {
 		o.Classes = append(o.Classes, "foreign-frames")
+	}
+	if info.L40Between > 0 {
+		o.Classes = append(o.Classes, "excluded-by-known-finding-L40(late-payloads-between-sessions)")
 	}
 	if info.StartAllFirst > 0 {
 		o.Classes = append(o.Classes, "excluded-by-known-finding-L20(start-all-first)")
@@ -781,6 +932,7 @@ func runC12(c c12Case) *vh.Outcome {
 	returnedAt := map[string]int{} // "<kind>@<node>#<attempt>" is the call name; map node+attempt order instead
 	_ = returnedAt
 	events := tape.Snapshot()
+	sessNonceOf := sessNonceOut
 	// per node: session instances in creation order, API returns in order
 	type inst struct {
 		label string
@@ -790,6 +942,24 @@ func runC12(c c12Case) *vh.Outcome {
 		if e.Kind == "onmsg" {
 			if int(e.From) < 1 || int(e.From) > n {
 				o.Fail = vh.Failf("C12/foreign-reached-backend", "backend instance %s was handed a message attributed to %d which is not a participant (participants 1..%d)", e.Session, e.From, n)
+				return o
+			}
+		}
+	}
+	// a protocol instance is only handed payloads of its own session (only decidable when instances emit payloads of their own)
+	for _, e := range events {
+		if e.Kind != "onmsg" || len(sessNonceOf) == 0 {
+			continue
+		}
+		want := sessNonceOf[e.Session]
+		body := string(e.Payload)
+		if i := strings.Index(body, "#"); want != "" && i >= 0 {
+			got := body[i:]
+			if j := strings.Index(got, ";"); j >= 0 {
+				got = got[:j]
+			}
+			if got != want {
+				o.Fail = vh.Failf(sigL40, "backend instance %s (session %s) was handed a payload of an earlier, finished session on the same topic (%s, from %d): %q - frames carry no session identifier, so a late (duplicated) frame of a finished session is taken for the running one's", e.Session, want, got, e.From, body)
 				return o
 			}
 		}
